@@ -3,6 +3,7 @@ import Toodee.Impl.Sort
 import Toodee.Spec.IterAbs
 import Toodee.Proofs.OwnershipLemmas
 import Toodee.Properties.C17
+import Toodee.Properties.C13Dispatch
 import Toodee.Proofs.SortLemmas2
 /-
   C11 — A panic in caller-supplied code leaves a valid array.
@@ -91,6 +92,44 @@ theorem C11_sort_caller_panic (m : Mode) (lim : Nat) (side : SideSort α) (hp : 
     · rw [sl2_run_vmut_col m lim v buf side k a ea]
       exact sl2_sort_col_panic v buf h a ha (v.col m) (sl2_col_view m v buf.length h) _
         (C17_swap_rows_spec_view m v buf.length h) lim side hp k
+
+/-- the same at the point where it matters: it suffices that the side sort panics **on the keys of the chosen line** of a valid
+    line index (a comparator that panics on its k-th call for this array) -/
+theorem C11_sort_caller_panic_at (m : Mode) (lim : Nat) (v : VW) (buf : List α) (h : v.Inv buf.length) (side : SideSort α)
+    (hs : side.Sane) (k : Nat) :
+    (k < v.numRows → v.numCols ≤ lim → side (readWin buf (v.rowWin k)) = .error .panic →
+      (Recv.vmut v).run m lim buf (.sortRow side k) = .error .panic) ∧
+    (k < v.numCols → v.numRows ≤ lim → side (v.colKeys buf k) = .error .panic →
+      (Recv.vmut v).run m lim buf (.sortCol side k) = .error .panic) ∧
+    (∀ (t : TD α), t.Inv → v = t.asView → buf = t.data →
+      (k < t.numRows → t.numCols ≤ lim → side (readWin t.data (t.asView.rowWin k)) = .error .panic →
+        (Recv.root t).run m lim t.data (.sortRow side k) = .error .panic) ∧
+      (k < t.numCols → t.numRows ≤ lim → side (t.asView.colKeys t.data k) = .error .panic →
+        (Recv.root t).run m lim t.data (.sortCol side k) = .error .panic)) := by
+  have hrow : ∀ (w : VW) (d : List α), k < w.numRows → w.numCols ≤ lim → side (readWin d (w.rowWin k)) = .error .panic →
+      (MOp.sortRow side k).spec w lim d = .error .panic := by
+    intro w d h1 h2 h3
+    simp only [MOp.spec, if_pos (And.intro h1 h2), h3, err_bind]
+  have hcol : ∀ (w : VW) (d : List α), k < w.numCols → w.numRows ≤ lim → side (w.colKeys d k) = .error .panic →
+      (MOp.sortCol side k).spec w lim d = .error .panic := by
+    intro w d h1 h2 h3
+    unfold VW.colKeys at h3
+    simp only [MOp.spec, if_pos (And.intro h1 h2), h3, err_bind]
+  refine ⟨?_, ?_, ?_⟩
+  · intro h1 h2 h3
+    rw [C04_run_view m lim v buf h (.sortRow side k) hs trivial]
+    exact hrow v buf h1 h2 h3
+  · intro h1 h2 h3
+    rw [C04_run_view m lim v buf h (.sortCol side k) hs trivial]
+    exact hcol v buf h1 h2 h3
+  · intro t ht _ _
+    constructor
+    · intro h1 h2 h3
+      rw [C13_run_owned m lim t ht (.sortRow side k) hs trivial]
+      exact hrow t.asView t.data h1 h2 h3
+    · intro h1 h2 h3
+      rw [C13_run_owned m lim t ht (.sortCol side k) hs trivial]
+      exact hcol t.asView t.data h1 h2 h3
 
 /-- … and whenever a sort does write, its side sort had returned: a successful sort is a permutation of whole columns / rows by
     the permutation the side sort produced (no partial state is observable in between: C16_sort_row_with, C17_sort_col_with) -/
